@@ -28,6 +28,8 @@ type Engine struct {
 	ghostFuncs map[string]*GhostFunc
 	ghostFile  map[*GhostFunc]*ContractFile
 	ghostFields map[string][]*GhostField
+	ghostVars map[string]*GhostVar
+	ghostVarObj map[string]*types.Var
 	units     map[string]*Unit
 	unitByLit map[*ast.FuncLit]*Unit
 	unitOrder []string
@@ -45,7 +47,7 @@ func (e *Engine) pkgByPathOr(p string, def *packages.Package) *packages.Package 
 func loadEngine(repo string, patterns []string, contractDirs []string) (*Engine, error) {
 	e := &Engine{repo: repo, byPath: map[string]*packages.Package{}, contracts: map[string]*FuncContract{},
 		fileOf: map[*FuncContract]*ContractFile{}, ghostFuncs: map[string]*GhostFunc{}, ghostFile: map[*GhostFunc]*ContractFile{},
-		ghostFields: map[string][]*GhostField{}, units: map[string]*Unit{}, unitByLit: map[*ast.FuncLit]*Unit{}}
+		ghostFields: map[string][]*GhostField{}, ghostVars: map[string]*GhostVar{}, ghostVarObj: map[string]*types.Var{}, units: map[string]*Unit{}, unitByLit: map[*ast.FuncLit]*Unit{}}
 	cfg := &packages.Config{Mode: packages.LoadAllSyntax, Dir: repo, BuildFlags: []string{"-tags=verif"},
 		Env: append(os.Environ(), "GOFLAGS=-mod=mod", "GOPROXY=off")}
 	pkgs, err := packages.Load(cfg, patterns...)
@@ -134,6 +136,10 @@ func (e *Engine) addContractFile(cf *ContractFile) {
 		}
 		e.ghostFuncs[g.Name] = g
 		e.ghostFile[g] = cf
+	}
+	for _, gv := range cf.Vars {
+		e.ghostVars[gv.Name] = gv
+		e.ghostVarObj[gv.Name] = types.NewVar(token.NoPos, nil, "$ghost:"+gv.Name, types.Typ[types.Int])
 	}
 	for _, gf := range cf.Fields {
 		owner := gf.Owner
@@ -281,6 +287,10 @@ func (e *Engine) generate(u *Unit) (res *UnitResult, vcOut *VC) {
 			vc.callbackVar("ncalls", cb.Name)
 			vc.callbackVar("lasterr", cb.Name)
 			vc.callbackVar("lastres", cb.Name)
+		}
+		for _, n := range vc.contract.Track {
+			vc.callbackVar("ncalls", n)
+			vc.callbackVar("lasterr", n)
 		}
 	}
 	for pu := u.Parent; pu != nil; pu = pu.Parent {
